@@ -146,3 +146,24 @@ def write_input(obj, tag: str = "in") -> str:
     with open(path, "w") as f:
         json.dump(obj, f, separators=(",", ":"))
     return path
+
+
+APALACHE_LAWS = ["Monotonic", "SideOrder", "NonNegative", "SidesAgreeOutside", "InverseOutside", "BeyondShift"]
+
+
+def run_apalache(module: str, inv: str, *, length: int = 0, timeout: int = 600):
+    """apalache-mc check --init=Init --next=Next --length=<n> --inv=<inv> on spec/apalache/<module>.tla.
+    Returns (ok, wall seconds, tail of the output)."""
+    wd = workdir("apa")
+    moddir = os.path.join(SPEC, "apalache")
+    cmd = ["apalache-mc", "check", "--init=Init", "--next=Next", f"--length={length}", f"--inv={inv}",
+           f"--out-dir={os.path.join(wd, 'out')}", f"--run-dir={os.path.join(wd, 'run')}", os.path.join(moddir, module + ".tla")]
+    t0 = time.time()
+    try:
+        p = subprocess.run(cmd, cwd=wd, capture_output=True, text=True, timeout=timeout)
+        out = p.stdout + p.stderr
+    except subprocess.TimeoutExpired as ex:
+        out = "timeout " + str(ex)
+    wall = time.time() - t0
+    cleanup(wd)
+    return ("The outcome is: NoError" in out), wall, out[-1200:]
